@@ -9,6 +9,7 @@ import (
 	"github.com/sarchlab/akita/v4/sim"
 	"github.com/sarchlab/akita/v4/tracing"
 	"github.com/sarchlab/mgpusim/v4/amd/emu"
+	"github.com/sarchlab/mgpusim/v4/amd/emu/cdna3"
 	"github.com/sarchlab/mgpusim/v4/amd/insts"
 	"github.com/sarchlab/mgpusim/v4/amd/kernels"
 	"github.com/sarchlab/mgpusim/v4/amd/protocol"
@@ -80,7 +81,12 @@ func runTiming(sc scenario, bk *builtKernel, d kernelData, l layout) *runOutcome
 	freq := 1 * sim.GHz
 	out := &runOutcome{rspAt: map[string]int64{}}
 	out.store = initialImage(bk, d, l)
-	c := cu.MakeBuilder().WithEngine(engine).WithFreq(freq).WithRegisterScoreboard(sc.Env.Scoreboard).Build("CU")
+	bld := cu.MakeBuilder().WithEngine(engine).WithFreq(freq).WithRegisterScoreboard(sc.Env.Scoreboard)
+	if sc.Kernel.cdna3() {
+		// as timingconfig/mi300a builds its compute units: CDNA3 ALU, CDNA3 decoding, register scoreboard
+		bld = bld.WithALUFactory(func(sa emu.StorageAccessor) emu.ALU { return cdna3.NewALU(sa) }).WithCDNA3Decoding(true).WithRegisterScoreboard(true)
+	}
+	c := bld.Build("CU")
 	base := vlib.NewPRNG(sc.Env.Seed)
 	profs := [3]memProfile{sc.Env.Inst, sc.Env.Scalar, sc.Env.Vector}
 	names := [3]string{"I", "S", "V"}
@@ -200,7 +206,14 @@ func runEmu(sc scenario, bk *builtKernel, d kernelData, l layout) *emuOutcome {
 	for a := uint64(0); a < l.End+4096; a += 4096 {
 		pt.Insert(vm.Page{PID: 1, VAddr: a, PAddr: a, PageSize: 4096, Valid: true})
 	}
-	c := emu.BuildComputeUnit("EmuCU", engine, insts.NewDisassembler(), pt, 12, out.store, nil)
+	dis := insts.NewDisassembler()
+	dis.IsCDNA3 = sc.Kernel.cdna3()
+	c := emu.BuildComputeUnitWithALU("EmuCU", engine, dis, pt, 12, out.store, nil, func(sa emu.StorageAccessor) emu.ALU {
+		if sc.Kernel.cdna3() {
+			return cdna3.NewALU(sa)
+		}
+		return emu.NewALU(sa)
+	}, sc.Kernel.cdna3())
 	h := &emuHook{waves: map[string]*waveRec{}, groups: map[*kernels.WorkGroup]*groupRec{}}
 	c.AcceptHook(h)
 	dc := sc.Env.Disp
